@@ -28,6 +28,7 @@ var embedTree embed.FS
 // (names with dots in odd places are ordinary names: "..", as a path element, never reaches a loader)
 var fsFiles = map[string]string{"/a.jet": "A", "/sub/b.jet": "B", "/sub/deep/c.jet": "C", "/x.html.jet": "X",
 	"/rep.v1..v2.jet": "R", "/arch..2024/x.jet": "Y", "/sub/..c.jet": "D"}
+var shadowFiles = map[string]string{"/a.jet/part.jet": "P", "/sub/b.jet/x/y.jet": "Q", "/" + strings.Repeat("n", 300) + ".jet": "L", "/sub/" + strings.Repeat("é", 200) + "/z.jet": "Z"}
 var fsDirs = []string{"/", "/sub", "/sub/deep", "/emptydir", "/arch..2024"}
 
 func genC19(r *h.Rand, tier string) []h.Case {
@@ -146,7 +147,17 @@ func genC19(r *h.Rand, tier string) []h.Case {
 			all = append(all, "/missing.jet", "/sub/missing", "/a.jet/x", "/sub/deep/c", "/a", "/rep.v1.v2.jet", "/arch.2024/x.jet", "/sub/.c.jet", "/...", "/sub/...")
 			sortStrings(all)
 			p := r.Pick(all)
-			kind := r.Pick([]string{"os", "http", "embed", "os-stack"})
+			kind := r.Pick([]string{"os", "http", "embed", "os-stack", "shadow-stack"})
+			if kind == "shadow-stack" {
+				// a later loader holds paths an earlier file-system loader cannot even look at (a regular file where
+				// the path has a directory, a segment longer than a file name may be): still first-loader-that-has-it
+				keys := []string{"/a.jet", "/sub/b.jet", "/missing.jet"}
+				for k := range shadowFiles {
+					keys = append(keys, k, k)
+				}
+				sortStrings(keys)
+				p = r.Pick(keys)
+			}
 			cmd := sx.L(sx.A("fsq"), sx.A(kind), sx.S(p))
 			if kind == "embed" {
 				// the directory inside the embed.FS, in every spelling that names it - or its parent, with the
@@ -514,8 +525,17 @@ func init() {
 			kind = "embed(root " + strconv.Quote(root) + ")"
 		case "os-stack":
 			l = multi.NewLoader(jet.NewInMemLoader(), jet.NewOSFileSystemLoader(fsRoot()))
+		case "shadow-stack":
+			im := jet.NewInMemLoader()
+			for k, v := range shadowFiles {
+				im.Set(k, v)
+			}
+			l = multi.NewLoader(jet.NewOSFileSystemLoader(fsRoot()), im)
 		}
 		want, isFile := fsFiles[p]
+		if kind == "shadow-stack" && !isFile {
+			want, isFile = shadowFiles[p]
+		}
 		if len(cmd.Xs) > 3 && !strings.Contains(path.Clean(string(cmd.Xs[3].B)), "embedtree") {
 			p = "/embedtree" + p // the root names the parent directory
 		}
